@@ -282,7 +282,7 @@ class Program:
                     return ("bool", truth[m_])
                 if var in ("Some", "Ok") and payload is not None and m_ in ("unwrap", "expect", "unwrap_or", "unwrap_or_default", "unwrap_or_else", "unwrap_unchecked"):
                     return payload
-                if var == "None" and m_ == "unwrap_or" and len(args) == 2:
+                if var in ("None", "Err") and m_ == "unwrap_or" and len(args) == 2:
                     return args[1]
                 if var == "None" and m_ == "unwrap_or_default" and len(args) == 1:
                     return ("opaque", "default")
